@@ -25,6 +25,10 @@ def check(run):
     exc(run, p, fc)
     perm(run, p, fc)
     rawremove(run, p, fc)
+    stateless(run, p, fc)
+    from .common import nocache_rule
+    nocache_rule(run, 'C04-NOCACHE', p, ['tdda.referencetest.checkfiles', 'tdda.referencetest.basecomparison'],
+                 'no memoising decorator and no class-level container used as a cache in the text comparison modules')
     from .common import gotcha_rule
     n = gotcha_rule(run, 'C04-WHOLESTR', p, ['tdda.referencetest.checkfiles', 'tdda.referencetest.utils', 'tdda.referencetest.basecomparison'],
                     'file names, extensions and exclusion strings are compared whole: no constant written ("text") - a one-element '
@@ -182,3 +186,27 @@ def rawremove(run, p, fc):
                                'removal is decided on %s, which %s' % (norm(g.iter)[:40], 'is the text as given' if not (bad or bad2) else 'has been normalised first'),
                                fn=f, node=x)
     run.floor('C04-RAWREMOVE', n, 2)
+
+
+def stateless(run, p, fc):
+    run.rule('C04-STATELESS', 'the outcome of a text check depends on its own arguments only: outside __init__ no method of the text '
+                              'comparison stores anything on the instance (compiled patterns, previous options) that a later check could '
+                              'read back, and the class has no class-level container')
+    n = 0
+    bad = []
+    classes = [p.classes[q] for q in p.mro(fc.qn) if q in p.classes]
+    for c in classes:
+        for m in c.methods.values():
+            n += 1
+            if m.name == '__init__':
+                continue
+            for x in p.own_nodes(m):
+                if isinstance(x, ast.Attribute) and isinstance(x.value, ast.Name) and x.value.id == 'self' and isinstance(x.ctx, (ast.Store, ast.Del)):
+                    bad.append((m, x))
+    if not bad:
+        run.ob('C04-STATELESS', '%s::%s' % (fc.mod.rel, fc.name), True, '%d methods store nothing on the instance' % n, fn=fc.methods['check_strings'])
+    for m, x in bad:
+        run.ob('C04-STATELESS', '%s::%s::self.%s' % (m.rel, m.short, x.attr), False,
+               '%s stores self.%s: state carried from one check to the next (a list edited in place between two checks would be '
+               'served stale)' % (m.short, x.attr), fn=m, node=x)
+    run.floor('C04-STATELESS', n, 15)
